@@ -25,8 +25,12 @@ func HarnessC14L3() {
 		{"cpu%", "mem%d", "used%s", "100%%", "a%!b", "%v", "cpu", "mem"},
 		// white space inside names: single and double spaces, a tab, a no-break space
 		{"first name", "first  name", "first\tname", "first\u00a0name", " first name", "first name ", "firstName", "first_name"},
+		// combining marks (non-spacing and spacing) inside and at the edges of names; encoding/json
+		// does not bind tags with such characters, so only names and tags are checked for these
+		{"cafe\u0301", "cafe", "\u0928\u093e\u092e", "e\u0300", "x\u0301y", "cre\u0300me", "\u0301x", "caf\u00e9"},
 	}
-	fam := fams[zzvrt.Choice(len(fams))]
+	famIdx := zzvrt.Choice(len(fams))
+	fam := fams[famIdx]
 	fam = fam[:zzvrt.Param("POOL", 6)]
 	var names []string
 	for k := 0; k < len(fam) && len(names) < zzvrt.Param("SIBLINGS", 3); k++ {
@@ -76,6 +80,9 @@ func HarnessC14L3() {
 		}
 	}
 	zzvrt.Check("C14.L3.tags-carry-exact-name", tagsOK)
+	if famIdx == 6 {
+		return
+	}
 	// all keys present with symbolic integers: accepted, and re-decoding binds by tag (each
 	// document member is read by exactly one field: checked by requiring all four values back)
 	d := zzvrt.NewDoc()
